@@ -135,7 +135,15 @@ class Gen:
         # input object
         fields = self.input_fields[t]
         if t in self.one_of:
-            f = r.choice(fields)
+            cands = fields
+            if depth > 3:
+                # do not recurse for ever through OneOf objects that refer to each other
+                leafy = [f for f in fields if self.kinds.get(f["type"].strip("[]!")) != "INPUT_OBJECT"]
+                if leafy:
+                    cands = leafy
+                elif depth > 12:
+                    return "{}"  # uninhabitable OneOf cycle: yields an invalid default, filtered by validate_schema
+            f = r.choice(cands)
             return "{" + f["name"] + ": " + self.literal_nn(f["type"].rstrip("!") if f["type"].endswith("!") else f["type"], depth + 1) + "}"
         parts = []
         for f in fields:
